@@ -31,40 +31,40 @@ SPECS = [
        params=[('table_id', None), ('row_ids', 'rows'), ('col_ids', 'optzlist'), ('data_cols_to_recompute', 'zlist')]),
   dict(name='gen_add_records', src='engine.py', path=['Engine', 'add_records'], extra=[ALLC],
        params=[('table_id', None), ('row_ids', 'zlist'), ('column_values', 'dict')],
-       glue={'7b8a6659ec0c': 'growto_size = ...', '730fdc2388d8': "id_column = table.get_column('id')",
-             '6a0a22432df6': 'id_column.growto(growto_size)', 'e98579010731': 'id_column.set(row_id, row_id)',
-             '1818ca9ebafe': 'table.grow_to_max()', '43fb33f4eac1': 'column.growto(growto_size)',
-             'a5d943d1d501': 'for row_id, value in zip(row_ids, values): column.set(row_id, value)'}),
+       glue={'74db6c4b8320': 'growto_size = ...', 'aed63238cbaa': "id_column = table.get_column('id')",
+             'bbd3b6eacd58': 'id_column.growto(growto_size)', '2186038fa26b': 'id_column.set(row_id, row_id)',
+             '06e2676a9c54': 'table.grow_to_max()', 'bbd3b6eacd58': 'column.growto(growto_size)',
+             '7c3f1d0ed038': 'for row_id, value in zip(row_ids, values): column.set(row_id, value)'}),
   dict(name='gen_doc_BulkAddRecord', src='docactions.py', path=['DocActions', 'BulkAddRecord'], extra=[ALLC],
        params=[('table_id', None), ('row_ids', 'zlist'), ('column_values', 'dict')],
-       glue={'53acd70324b5': 'assert row_id not in table.row_ids', '2b93d38ede39': 'undo.append(BulkRemoveRecord)',
+       glue={'84420ddb0c56': 'assert row_id not in table.row_ids', '2b93d38ede39': 'undo.append(BulkRemoveRecord)',
              'df7b64d9983c': 'summary.add_records'}),
   dict(name='gen_doc_BulkUpdateRecord', src='docactions.py', path=['DocActions', 'BulkUpdateRecord'], extra=[ALLC],
        params=[('table_id', None), ('row_ids', 'zlist'), ('columns', 'dict')],
-       glue={'f3bd0d902163': 'assert row_id in table.row_ids', '6cd7b7409995': 'undo_values = {}',
-             '6595643b923a': 'undo_values[col_id] = [col.raw_get(r) for r in row_ids]',
-             '81b7641f080a': 'undo.append(BulkUpdateRecord(undo_values))',
-             '1ad0bbc21b58': 'for row_id, value in zip(row_ids, values): col.set(row_id, value)',
-             'c028dd6f423a': "if table_id == '_grist_Tables_column' and (...): trigger_columns_changed()"}),
+       glue={'68d83484015a': 'assert row_id in table.row_ids', '61f96efcdae3': 'undo_values = {}',
+             'ca7d1b37a432': 'undo_values[col_id] = [col.raw_get(r) for r in row_ids]',
+             '2123e988cca9': 'undo.append(BulkUpdateRecord(undo_values))',
+             '7c3f1d0ed038': 'for row_id, value in zip(row_ids, values): col.set(row_id, value)',
+             'fb5efb8f8eab': "if table_id == '_grist_Tables_column' and (...): trigger_columns_changed()"}),
   dict(name='gen_doc_BulkRemoveRecord', src='docactions.py', path=['DocActions', 'BulkRemoveRecord'],
        extra=[ALLC, '(existing_rows : list Z -> list Z)'],
        params=[('table_id', None), ('row_ids', 'zlist')],
-       glue={'6ad5e135c1ba': ('bind', 'row_ids', '(existing_rows row_ids)', 'zlist'),   # rows that exist in the table
-             'a96b7bf3819f': 'undo_values = {}', '9eb99c933fa9': 'collect the undo values of the column',
-             '00593ef69b8e': 'column.unset(row_id)', 'c3acaa5f6e69': 'undo.append(BulkAddRecord(undo_values))',
+       glue={'f34ebf39258c': ('bind', 'row_ids', '(existing_rows row_ids)', 'zlist'),   # rows that exist in the table
+             '61f96efcdae3': 'undo_values = {}', '2f61e5fbbd29': 'collect the undo values of the column',
+             '33161c4373f1': 'column.unset(row_id)', '5a74b36ef6e0': 'undo.append(BulkAddRecord(undo_values))',
              'eca738e40b93': 'summary.remove_records'}),
   dict(name='gen_doBulkAddOrReplace', src='useractions.py', path=['UserActions', 'doBulkAddOrReplace'],
        extra=[ALLC, '(is_meta : bool)', '(filled_row_ids : list Z)'], consts=RW,
        params=[('table_id', None), ('row_ids', None), ('column_values', 'dict'), ('replace', None)],
        env={'filled_row_ids': ('filled_row_ids', 'zlist')}, action_kind={'action': 'BulkAddRecord'},
-       glue={'56030cb43027': 'next_row_id = ...', '17948438c33d': 'seen = set()',
-             '324c4e0171ad': 'validation of explicitly requested row ids',
-             '6377d2ea46e9': 'filled_row_ids = row_ids[:]', '81ea0c4c7c21': 'fill in automatic row ids',
-             'bce366748486': 'summary.update_new_rows_map', 'c87095f82ff5': 'ActionType = ...',
+       glue={'157054854965': 'next_row_id = ...',
+             '21ffaccf8f4b': 'validation of explicitly requested row ids',
+             '3d007166eb2e': 'filled_row_ids = row_ids[:]', '812fed9ef17a': 'fill in automatic row ids',
+             '74f9c865495a': 'summary.update_new_rows_map', '909e930b1c8c': 'ActionType = ...',
              # values are converted to the column types; the row ids and the set of columns stay
-             '8a2aba51aef3': ('bind', 'action', '(filled_row_ids, column_values)', 'action'),
-             '9f20c986142e': 'for a in extra_actions: self._do_extra_doc_action(a)',
-             '123aa9b22a1c': "if table_id == '_grist_Validations': ...", 'c4648b193760': 'return filled_row_ids'}),
+             '8da31eb41a02': ('bind', 'action', '(filled_row_ids, column_values)', 'action'),
+             '76b0e01c356d': 'for a in extra_actions: self._do_extra_doc_action(a)',
+             '6b81d965cdc7': "if table_id == '_grist_Validations': ...", 'e4fccc965f07': 'return filled_row_ids'}),
   dict(name='gen_doBulkUpdateRecord', src='useractions.py', path=['UserActions', 'doBulkUpdateRecord'],
        extra=[ALLC, '(raw_get : Z -> Z -> Z)', '(translate_new_row_ids : list Z -> list Z)',
               '(convert_action_values : bulk_action -> bulk_action)'], consts=RW,
@@ -73,22 +73,95 @@ SPECS = [
                'self._engine.convert_action_values': ('convert_action_values', ['action'], 'action'),
                'self._engine.trim_update_action': ('gen_trim_update_action raw_get', ['action'], 'action')},
        glue_names=('extra_actions',), action_kind={'action': 'BulkUpdateRecord'},
-       glue={'af028b363fec': 'keep the last occurrence of a repeated row id (no-op without repeated ids)',
-             'c0c627f83786': 'raw view sections', 'd79cac4664f3': 'fields of raw view sections',
-             '258a89bc9f48': 'record card sections', '530390b5b2d2': 'fields of record card sections',
-             '2d5a6f2b974e': 'for a in extra_actions: self._do_extra_doc_action(a)'}),
+       glue={'dda4d9c086bc': 'keep the last occurrence of a repeated row id (no-op without repeated ids)',
+             '53ec0e0617b7': 'raw view sections', 'c50c9ed65a23': 'fields of raw view sections',
+             'c2ab5ec26961': 'record card sections', 'b6b159f54abb': 'fields of record card sections',
+             '76b0e01c356d': 'for a in extra_actions: self._do_extra_doc_action(a)'}),
   dict(name='gen_trigger_dependencies', src='engine.py', path=['Engine', '_maybe_update_trigger_dependencies'],
        extra=[ALLC, '(is_meta : bool)'], consts=RW, params=[],
        glue={'f1f23585b2fc': 'if not self._have_trigger_columns_changed: return',
              '6d09e3e821b8': 'self._have_trigger_columns_changed = False',
-             '70c3b020dcbe': 'self._recompute_edge_set.add(edge)'},
+             '6fccde56d49f': 'self._recompute_edge_set.add(edge)'},
        # `rel` is a fresh SingleRowsIdentityRelation object, so the edge is never in the set already
-       true_tests={'357f0a6f97c2': 'edge not in self._recompute_edge_set'}),
+       true_tests={'d457461b019d': 'edge not in self._recompute_edge_set'}),
 ]
 
 
 def spec(name):
   return [s for s in SPECS if s['name'] == name][0]
+
+
+# Functions the hand model was written from and that are NOT translated: pinned as a whole by the hash of their
+# normalised AST (docstrings, comments, layout and the names of locals do not matter).
+PINS = [
+  ('engine.py', ['Engine', 'apply_user_actions'], 'PIN', 'exemptions cleared per user action; recalculation after the last'),
+  ('engine.py', ['Engine', '_recompute_step'], 'PIN', 'dirty rows minus exempt rows; existing rows only'),
+  ('engine.py', ['Engine', '_bring_all_up_to_date'], 'PIN', 'one recalculation pass per bundle'),
+  ('engine.py', ['Engine', 'apply_doc_action'], 'PIN', 'dispatch of doc actions'),
+  ('engine.py', ['Engine', 'trigger_columns_changed'], 'PIN', 'edges rebuilt only when flagged'),
+  ('engine.py', ['Engine', 'delete_column'], 'PIN', 'a deleted column: ALL_ROWS to dependents, own edges cleared'),
+  ('engine.py', ['Engine', '_update_table_model'], 'PIN', 'schema change = columns deleted and added'),
+  ('depend.py', ['Graph', 'invalidate_deps'], 'PIN', 'transitive invalidation; ALL_ROWS clears and skips'),
+  ('depend.py', ['Graph', 'clear_dependencies'], 'PIN', 'edges of an out-node'),
+  ('column.py', ['BaseColumn', 'has_formula'], 'PIN', 'has_formula = a method is attached'),
+  ('docactions.py', ['DocActions', 'RenameColumn'], 'PIN', 'rename = new column object under a new id'),
+  ('docactions.py', ['DocActions', 'ModifyColumn'], 'PIN', 'type change = column object replaced under the same id'),
+  ('docactions.py', ['DocActions', 'AddRecord'], 'PIN', 'AddRecord -> BulkAddRecord'),
+  ('docactions.py', ['DocActions', 'UpdateRecord'], 'PIN', 'UpdateRecord -> BulkUpdateRecord'),
+  ('docactions.py', ['DocActions', 'RemoveRecord'], 'PIN', 'RemoveRecord -> BulkRemoveRecord'),
+  ('useractions.py', ['UserActions', '_do_doc_action'], 'PIN', 'a doc action is applied unless it affects no rows'),
+  ('useractions.py', ['UserActions', 'BulkAddRecord'], 'PIN', 'user-level add -> doBulkAddOrReplace'),
+  ('useractions.py', ['UserActions', 'BulkUpdateRecord'], 'PIN', 'user-level update -> _BulkUpdateRecord_decoded'),
+  ('useractions.py', ['UserActions', '_BulkUpdateRecord_decoded'], 'PIN', '... -> doBulkUpdateRecord'),
+  ('useractions.py', ['UserActions', 'ApplyUndoActions'], 'PIN', 'undo = doc actions in reverse order'),
+  ('useractions.py', ['UserActions', 'BulkRemoveRecord'], 'PIN', 'user-level remove'),
+]
+
+
+PIN_HASHES = {
+  'Engine.apply_user_actions': 'd63bee34b491', 'Engine._recompute_step': '0f055a6980bf',
+  'Engine._bring_all_up_to_date': '19ad2c2e008a', 'Engine.apply_doc_action': 'e6f435e18e66',
+  'Engine.trigger_columns_changed': '473eb272d720', 'Engine.delete_column': 'd61063c6535d',
+  'Engine._update_table_model': 'e69ec747732e', 'Graph.invalidate_deps': 'b60f37d69689',
+  'Graph.clear_dependencies': '986a6f16f71c', 'BaseColumn.has_formula': '0f88e50af589',
+  'DocActions.RenameColumn': '3470f9faa4b0', 'DocActions.ModifyColumn': '1302acee6b82',
+  'DocActions.AddRecord': '577331afcf65', 'DocActions.UpdateRecord': 'c9b63d6956b8',
+  'DocActions.RemoveRecord': 'cf1bcfde364e', 'UserActions._do_doc_action': '98c86163d994',
+  'UserActions.BulkAddRecord': 'e995471322d1', 'UserActions.BulkUpdateRecord': 'b3bb2ae72ce9',
+  'UserActions._BulkUpdateRecord_decoded': 'ffde213e4604', 'UserActions.ApplyUndoActions': 'd235e72cc5fd',
+  'UserActions.BulkRemoveRecord': '2d8a7662c3f6',
+}
+
+
+def pin_hash(tree, path):
+  """Statement by statement (the dump of a FunctionDef node itself differs between Python versions)."""
+  import hashlib
+  fn = tg2v.find_func(tree, path)
+  names = tg2v.local_names(fn)
+  parts = [tg2v.norm_hash(s, names) for s in tg2v.strip_doc(fn.body)]
+  parts.append('args=%d' % len(fn.args.args))
+  parts.append('defaults=' + ','.join(ast.dump(d) for d in fn.args.defaults))
+  parts.append('decorators=' + ','.join(tg2v.dotted(d) or ast.dump(d) for d in fn.decorator_list))
+  return hashlib.sha1('|'.join(parts).encode()).hexdigest()[:12]
+
+
+def check_pins(grist_dir):
+  """-> list of 'file function: why' for pinned functions that no longer have the recorded shape."""
+  bad = []
+  trees = {}
+  for src, path, _, why in PINS:
+    want = PIN_HASHES.get('.'.join(path))
+    if src not in trees:
+      with open(os.path.join(grist_dir, src)) as fh:
+        trees[src] = ast.parse(fh.read())
+    try:
+      got = pin_hash(trees[src], path)
+    except tg2v.Untranslatable as e:
+      bad.append('%s %s: %s' % (src, '.'.join(path), e))
+      continue
+    if got != want:
+      bad.append('%s %s changed (pinned %s, now %s): %s' % (src, '.'.join(path), want, got, why))
+  return bad
 
 
 HEADER = '''(* GENERATED by harness/tg2v.py from %s on every run of ./check C15 -- do not edit. *)
